@@ -120,10 +120,12 @@ pub fn render_parts(parts: &[Part]) -> String {
             Part::Glue => s.push_str("<>"),
             Part::Print(e) => write!(s, "{{{}}}", e.render()).unwrap(),
             Part::Cond(c, a, b) => {
+                // no blank after ':' or around '|': blanks inside the braces belong to the branch
+                // texts (RULES.md L1b), so they are written only where a part carries them
                 if b.is_empty() {
-                    write!(s, "{{{}: {}}}", c.render(), render_parts(a)).unwrap()
+                    write!(s, "{{{}:{}}}", c.render(), render_parts(a)).unwrap()
                 } else {
-                    write!(s, "{{{}: {}|{}}}", c.render(), render_parts(a), render_parts(b)).unwrap()
+                    write!(s, "{{{}:{}|{}}}", c.render(), render_parts(a), render_parts(b)).unwrap()
                 }
             }
             Part::Seq(k, els) => {
@@ -272,7 +274,10 @@ fn render_stmt(s: &Stmt, ind: usize, level: usize, out: &mut String) {
                 write!(l, " # {t}").unwrap();
             }
             if let Some(d) = divert {
-                write!(l, " -> {}", d.render()).unwrap();
+                // text that ends in a comma is written tight against the arrow (`mug,-> k`), text
+                // that ends in a blank gets no second one: T1b says the result is the same
+                let sep = if l.ends_with(',') || l.ends_with(' ') { "" } else { " " };
+                write!(l, "{sep}-> {}", d.render()).unwrap();
             }
             out.push_str(&l);
             out.push('\n');
